@@ -8,7 +8,7 @@
 (*       of all queries) and every transition; the Go harness replays each    *)
 (*       transition on the real containers,                                   *)
 (*   R3  GraphSetTrace.tla reuses the actions to validate recorded histories. *)
-EXTENDS Integers, FiniteSets, Sequences, TLC, Json
+EXTENDS Integers, FiniteSets, Sequences, TLC, Json, GraphViews
 
 CONSTANTS IDs,      \* bounded universe of node ids the mutators are called with
           Directed, \* BOOLEAN
@@ -51,6 +51,18 @@ Degree(u) == Cardinality(From(u) \cup To(u))
 \* returns a new value with the ends swapped and the same weight.
 EdgeVal(u, v) == [f |-> u, t |-> v, w |-> edges[Norm(u, v)]]      \* defined iff HasFromTo(u, v)
 RevVal(e)     == [f |-> e.t, t |-> e.f, w |-> e.w]
+
+(************* the wrapper views of package graph (GraphViews.tla) *************)
+\* graph.Undirect / graph.UndirectWeighted of a directed container and graph.Complement of any
+\* container are stated over the base graph of the state: its nodes, its arcs (an undirected graph
+\* has both orientations of each edge) and their weight tokens.
+ArcsE(N, E) == {a \in N \X N : HasFromToE(E, a[1], a[2])}
+Arcs  == TLCEval(ArcsE(nodes, edges))
+ArcW  == TLCEval([a \in Arcs |-> edges[Norm(a[1], a[2])]])
+\* the values of UndirectWeighted.Absent the views are asked with: zero (the value the documentation
+\* of Weight names for a pair that is not joined), an ordinary weight token, a negative value that
+\* is no weight token (1 + (-3) is even, 2 + (-3) is odd: whole and half-integer means)
+AbsentVals == {0, 1, -3}
 
 (**************** construction of the dense (matrix) graphs ******************)
 \* NewDirectedMatrix / NewUndirectedMatrix(n, init, self, absent) build the graph on nodes
@@ -136,6 +148,19 @@ RevLaw == \A u, v \in U : HasFromTo(u, v) =>
              /\ RevVal(EdgeVal(u, v)).w = Weight(u, v).w
              /\ (~Directed => RevVal(EdgeVal(u, v)) = EdgeVal(v, u))
 
+\* the wrapper views agree with their second formulations (GraphViews.tla): the undirected view is
+\* the query model of the symmetrised arc set, its From is symmetric, Weight's ok flag <=> x = y or
+\* joined, the merges are commutative and ordered min <= mean <= max, the complement of the complement
+\* has the original arcs, complement From and From partition the other nodes
+ViewUndirect   == Directed => LET A == Arcs IN UndirectLaws(nodes, A, U)
+ViewWeight     == Directed => LET A == Arcs W == ArcW IN WeightLaws(A, W, AbsentVals, U)
+ViewComplement == LET A == Arcs IN ComplementLaws(nodes, A, U)
+ViewBase == LET A == Arcs IN
+            /\ \A u, v \in U : UHasV(A, u, v) = HasBetween(u, v)
+            /\ \A u \in U : FromA(nodes, A, u) = From(u)
+            /\ Loops(A) = {} /\ A \subseteq nodes \X nodes
+            /\ ~Directed => SymA(A) = A
+
 \* action properties
 PanicLeavesUnchanged == [][last' = "panic" => UNCHANGED <<nodes, edges>>]_vars
 RemoveNodeExact == [][\A n \in IDs : (n \in nodes /\ n \notin nodes') =>
@@ -157,6 +182,37 @@ StateAnswers ==
       ev |-> {[u |-> p[1], v |-> p[2], w |-> EdgeVal(p[1], p[2]).w,
                rf |-> RevVal(EdgeVal(p[1], p[2])).f, rt |-> RevVal(EdgeVal(p[1], p[2])).t,
                rw |-> RevVal(EdgeVal(p[1], p[2])).w] : p \in {q \in IDs \X IDs : HasFromTo(q[1], q[2])}}]
+\* the answers of the wrapper views in the current state (a second record kind, "v").  Tuples:
+\*   uev   <<x, y, f, t, rf, rt>>   Edge(x, y) of the undirected view has ends (f, t), its ReversedEdge (rf, rt)
+\*   uw    <<m, ab, x, y, k, w2>>   UndirectWeighted{Absent: ab, Merge: m}.Weight(x, y); m: 0 mean (nil), 1 min,
+\*                                  2 max; k: 0 self, 1 edge (w2 = twice the merged weight = twice the Weight()
+\*                                  of the edge value), 2 absent (zero, not ok)
+\*   ma    <<ab, x, y, {<<w, p, f, t>>, <<w, p, f, t>>}>>  what Merge is handed for the joined pair (x, y): the
+\*                                  unordered pair of (weight, edge non-nil ? 1 : 0, ends of the edge)
+\*   cev   <<u, v, f, t, rf, rt>>   Complement.Edge(u, v) is non-nil, with ends (f, t), its ReversedEdge (rf, rt)
+MergeNo(m) == CASE m = "mean" -> 0 [] m = "min" -> 1 [] m = "max" -> 2
+KindNo(k)  == CASE k = "self" -> 0 [] k = "edge" -> 1 [] k = "absent" -> 2
+B01(b) == IF b THEN 1 ELSE 0
+IDPairs == IDs \X IDs
+UndirectAnswers(Ar, Wt) ==
+  [ufrom |-> [u \in IDs |-> UFromV(nodes, Ar, u)],
+   uheb  |-> {p \in IDPairs : UHasV(Ar, p[1], p[2])},
+   uev   |-> {<<p[1], p[2], UEdgeV(Ar, p[1], p[2]).f, UEdgeV(Ar, p[1], p[2]).t,
+                RevV(UEdgeV(Ar, p[1], p[2])).f, RevV(UEdgeV(Ar, p[1], p[2])).t>>
+              : p \in {q \in IDPairs : UHasV(Ar, q[1], q[2])}},
+   uw    |-> {<<MergeNo(m), ab, p[1], p[2], KindNo(UWeightV(Ar, Wt, m, ab, p[1], p[2]).k),
+                UWeightV(Ar, Wt, m, ab, p[1], p[2]).w2>> : m \in Merges, ab \in AbsentVals, p \in IDPairs},
+   ma    |-> {<<ab, p[1], p[2], {<<a.w, B01(a.p), a.f, a.t>> : a \in MergeArgs(Ar, Wt, ab, p[1], p[2])}>>
+              : ab \in AbsentVals, p \in {q \in IDPairs : UHasV(Ar, q[1], q[2])}}]
+ComplementAnswers(Ar) ==
+  [cfrom |-> [u \in IDs |-> CFromV(nodes, Ar, u)],
+   cheb  |-> {p \in IDPairs : CBetweenV(nodes, Ar, p[1], p[2])},
+   cev   |-> {<<p[1], p[2], CEdgeV(p[1], p[2]).f, CEdgeV(p[1], p[2]).t,
+                RevV(CEdgeV(p[1], p[2])).f, RevV(CEdgeV(p[1], p[2])).t>>
+              : p \in {q \in IDPairs : CHasV(nodes, Ar, q[1], q[2])}}]
+ViewAnswers == [k |-> "v", nodes |-> nodes, edges |-> EdgeList, directed |-> Directed]
+               @@ (LET A == Arcs W == ArcW IN
+                   ComplementAnswers(A) @@ (IF Directed THEN UndirectAnswers(A, W) ELSE <<>>))
 \* printed once per distinct state (invariants are evaluated on new states)
-EmitState == Emit => PrintT(ToJson(StateAnswers))
+EmitState == Emit => PrintT(ToJson(StateAnswers)) /\ PrintT(ToJson(ViewAnswers))
 =============================================================================
